@@ -210,9 +210,15 @@ class BuildGen:
                                "type_opaque/6162", "constant_bit32/%d/7" % (900 + rnd.randrange(9)),
                                "spec_constant_bit32/%d/9" % (900 + rnd.randrange(9)),
                                "variable/1/-/7/-", "undef/2/-", "line/1/2/3", "no_line"])
+        def version():
+            return "set_version/%d/%d" % (rnd.choice([1, 1, 2, 0, 16, 255]), rnd.choice([rnd.randrange(7), 15, 16, 17, 128, 255]))
         for _ in range(n(10)):
             calls.append(module_level())
+            if rnd.random() < 0.06:
+                calls.append(version())          # the version may be set again at any time: the last call counts
         for _ in range(rnd.randrange(0, 3)):
+            if rnd.random() < 0.1:
+                calls.append(version())
             calls.append("begin_function/%d/-/%d/%d" % (self.some_id(), rnd.choice([0, 1, 2, 4]), self.some_id()))
             for _ in range(rnd.randrange(0, 3)):
                 calls.append("function_parameter/%d" % self.some_id())
@@ -234,4 +240,6 @@ class BuildGen:
             calls.append("end_function")
             for _ in range(n(2)):
                 calls.append(module_level())
+        if rnd.random() < 0.15:
+            calls.append(version())
         return calls
